@@ -21,7 +21,10 @@ try:
            ",".join("%s:%d" % kv for kv in sorted(us.items())), "--show-goto-symex-steps", "--program-only", job.goto]
     out = scratch + "/steps.txt"
     with open(out, "w") as fh:
-        subprocess.run(cmd, stdout=fh, stderr=subprocess.STDOUT, timeout=int(os.environ.get("PROF_TIMEOUT", "1500")))
+        try:
+            subprocess.run(cmd, stdout=fh, stderr=subprocess.STDOUT, timeout=int(os.environ.get("PROF_TIMEOUT", "1500")))
+        except subprocess.TimeoutExpired:
+            print("(symex cut off at the time limit; counts are for the prefix executed)")
     pm = {}
     try:
         pm = json.load(open(job.meta["goto_file"].replace(".symtab.out", ".pretty_name_map.json")))
